@@ -45,6 +45,8 @@ TRIGGERS = {}
 
 
 def _size(rng, tier):
+    if rng.random() < 0.02:
+        return rng.randint(9, 30), rng.randint(13, 100)      # now and then a terminal of realistic size
     if rng.random() < 0.15:
         return rng.randint(1, 3), rng.randint(1, 4)
     return rng.randint(1, 8), rng.randint(1, 12)
